@@ -69,7 +69,7 @@ func (senderMock) ParseRelay(context.Context, string, string, string, string, st
 type metricsMock struct{}
 
 func (metricsMock) SetRelayNodeErrorMetric(string, string, string, string) {}
-func (metricsMock) GetChainIdAndApiInterface() (string, string)               { return "LAV1", "rest" }
+func (metricsMock) GetChainIdAndApiInterface() (string, string)            { return "LAV1", "rest" }
 
 type world struct {
 	parser  chainlib.ChainParser
